@@ -3,3 +3,8 @@ import MtailVerif.Props.C02
 #print axioms MtailVerif.C02.foldNode_sound
 #print axioms MtailVerif.C02.fold_preserves_typed_eval
 #print axioms MtailVerif.C02.fold_reject_only_zero_divisor
+#print axioms MtailVerif.C02.exec_skeletons
+#print axioms MtailVerif.C02.compare_skeletons
+#print axioms MtailVerif.C02.checkerAfter_skeletons
+#print axioms MtailVerif.C02.optBefore_skeletons
+#print axioms MtailVerif.C02.optAfter_skeletons
